@@ -122,6 +122,9 @@ def broken_variants(rng):
     d = good(); d[2].path = [('id', 'Other'), ('id', 'Parent')]; res.append(('element path does not extend its parent path (wrong prefix)', d, {}))
     d = good(); d[2].path = [('id', 'Root'), ('id', 'Other'), ('id', 'Parent')]; res.append(('element path does not extend its parent path (extra master before the parent)', d, {}))
     d = good(); d[2].path = [('id', 'Parent')]; res.append(('element path does not extend its parent path (too short)', d, {}))
+    d = good(); d[2].path = [('id', 'Root'), ('id', 'Plain'), ('g', 1, None)]; res.append(('non-master parent before a trailing placeholder', d, {}))
+    d = good(); d[2].path = [('id', 'Parent'), ('g', 1, None)]; res.append(('element path does not extend its parent path (trailing placeholder after a misplaced parent)', d, {}))
+    d = good(); d[2].path = [('id', 'Root'), ('id', 'Nope'), ('g', None, 2)]; res.append(('unknown parent before a trailing placeholder', d, {}))
     d = good(); d[4].path = [('id', 'Root'), ('g', None, 0)]; res.append(('zero-maximum global placeholder', d, {}))
     d = good(); d[4].path = [('id', 'Root'), ('g', 1, None), ('g', 1, None)]; res.append(('adjacent global placeholders', d, {}))
     d = good(); res.append(('missing id attribute', d, {'drop_id': 'Plain'}))
